@@ -1430,6 +1430,7 @@ def kkt_chol2(G, dims, A, mnl = 0):
                     d = F['S'][::n+1]
                 else:
                     F['Sf'] = cholmod.symbolic(F['S'])
+                    F['Snnz'] = len(F['S'])
                     cholmod.numeric(F['S'], F['Sf'])
                     d = cholmod.diag(F['Sf'])
                 # A singular S can pass the factorization with pivots
@@ -1450,6 +1451,7 @@ def kkt_chol2(G, dims, A, mnl = 0):
                     lapack.potrf(F['S']) 
                 else:
                     F['Sf'] = cholmod.symbolic(F['S'])
+                    F['Snnz'] = len(F['S'])
                     cholmod.numeric(F['S'], F['Sf'])
             F['firstcall'] = False
 
@@ -1465,6 +1467,11 @@ def kkt_chol2(G, dims, A, mnl = 0):
             if type(F['S']) is matrix: 
                 lapack.potrf(F['S']) 
             else:
+                if len(F['S']) != F['Snnz']:
+                    # H added entries outside the sparsity pattern used
+                    # for the symbolic factorization.
+                    F['Sf'] = cholmod.symbolic(F['S'])
+                    F['Snnz'] = len(F['S'])
                 cholmod.numeric(F['S'], F['Sf'])
 
         if type(F['S']) is matrix: 
